@@ -37,6 +37,13 @@ pub(crate) use self::peers::FetchInfo;
 
 use prelude::*;
 
+/// Verification access (feature `verif`): re-exports of pure functions for the monitors.
+#[cfg(feature = "verif")]
+pub(crate) mod verif_access {
+    pub(crate) use super::components::{verify_tau, verify_total_difficulty};
+    pub(crate) use super::sampling::{estimate_k, estimate_samples_count, sample_blocks};
+}
+
 pub(crate) use self::peers::{LastState, Peer, PeerState, Peers, ProveRequest, ProveState};
 use super::{
     status::{Status, StatusCode},
